@@ -64,6 +64,10 @@ pub struct CaseC15 {
     /// 0..=2*capacity) before the readers are queried - "all arena fill states" includes the ones a resize leaves behind
     #[serde(default)]
     pub trunc: Option<u16>,
+    /// the arena lives in a file mapped at an offset of 1 or 2 pages (map_mut): readers and slice accessors are about
+    /// the mapping, wherever in the file it starts - also after a resize re-made it
+    #[serde(default)]
+    pub fileoff: Option<u8>,
 }
 
 const NREADERS: u8 = 2 + 16 + 8;
@@ -103,7 +107,8 @@ fn run_c15<A: Flavor>(case: &CaseC15) -> CaseReport {
         .with_unify(case.unify)
         .with_reserved(case.reserved as u32)
         .with_freelist(rarena_allocator::Freelist::None);
-    let d = if case.unify {
+    let file = case.fileoff.is_some() && case.shrink.is_none();
+    let d = if case.unify || file {
         opts.data_offset_unify::<A>()
     } else {
         opts.data_offset::<A>()
@@ -112,7 +117,22 @@ fn run_c15<A: Flavor>(case: &CaseC15) -> CaseReport {
     if let Some(sel) = case.shrink {
         return run_c15_shrunk::<A>(case, sel, classes);
     }
-    let Ok(mut arena) = opts.with_capacity(cap as u32).alloc::<A>() else {
+    let mut c15_path = None;
+    let made = if let Some(k) = case.fileoff {
+        let p = crate::enga::fresh_path();
+        let _ = std::fs::remove_file(&p);
+        let off = (1 + (k as u64 % 2)) * crate::enga::page_size() as u64;
+        let r = unsafe { opts.with_capacity(cap as u32).with_create_new(true).with_read(true).with_write(true).with_offset(off).map_mut::<A, _>(&p) };
+        c15_path = Some(p);
+        classes.insert("file-mapped-at-an-offset");
+        r.ok()
+    } else {
+        opts.with_capacity(cap as u32).alloc::<A>().ok()
+    };
+    let Some(mut arena) = made else {
+        if let Some(p) = c15_path {
+            let _ = std::fs::remove_file(p);
+        }
         return CaseReport {
             nontrivial: false,
             classes,
@@ -348,6 +368,10 @@ fn run_c15<A: Flavor>(case: &CaseC15) -> CaseReport {
         }
         Ok(())
     })();
+    drop(arena);
+    if let Some(p) = c15_path {
+        let _ = std::fs::remove_file(p);
+    }
     let nontrivial = classes.contains("nonzero-above-mark")
         && (classes.contains("straddles-mark")
             || classes.contains("varint-runs-into-mark")
@@ -482,9 +506,10 @@ impl Prop for C15 {
             prop::collection::vec(q, 1..=nq),
             prop_oneof![39 => Just(None), 1 => any::<u16>().prop_map(Some)],
             prop_oneof![3 => Just(None), 1 => any::<u16>().prop_map(Some)],
+            prop_oneof![7 => Just(None), 1 => any::<u8>().prop_map(Some)],
         )
             .prop_map(
-                |(sync, unify, reserved, extra, seed, mark, queries, shrink, trunc)| CaseC15 {
+                |(sync, unify, reserved, extra, seed, mark, queries, shrink, trunc, fileoff)| CaseC15 {
                     sync,
                     unify,
                     reserved,
@@ -494,6 +519,7 @@ impl Prop for C15 {
                     queries,
                     shrink,
                     trunc,
+                    fileoff,
                 },
             )
             .boxed()
